@@ -322,10 +322,12 @@ class MEIExporter:
                     "Tuplet start note is after end note. Skipping tuplet element."
                 )
                 continue
-            # Skip if start and end notes are in different voices or staves
-            if start_note.voice != end_note.voice or start_note.staff != end_note.staff:
+            # Skip if start and end notes are in different voices (the notes of
+            # a voice are written in one layer, also when some of them stand on
+            # another staff)
+            if start_note.voice != end_note.voice:
                 warnings.warn(
-                    "Tuplet start and end notes are in different voices or staves. Skipping tuplet element."
+                    "Tuplet start and end notes are in different voices. Skipping tuplet element."
                 )
                 continue
             # Find the note element corresponding to the start note i.e. has the same id value
@@ -343,6 +345,11 @@ class MEIExporter:
                 if end_note_el.getparent().tag == "chord"
                 else end_note_el
             )
+            if start_note_el.getparent() is not end_note_el.getparent():
+                warnings.warn(
+                    "Tuplet start and end notes are in different layers. Skipping tuplet element."
+                )
+                continue
             # Create the tuplet element as parent of the start and end note elements
             # Make it start at the same index as the start note element
             tuplet_el = etree.Element("tuplet")
